@@ -55,7 +55,7 @@ Ltac split_thread t :=
     | rewrite nth_set_cthr_other in H by assumption ]
   end.
 
-Theorem close_step_inv s t : ClInv s -> ClInv (close_step true s t).
+Theorem close_step_inv skip s t : ClInv s -> ClInv (close_step true skip s t).
 Proof.
   intros I. unfold close_step.
   destruct (nth_error (cl_thr s) t) as [th|] eqn:Eth; [|exact I].
@@ -188,7 +188,9 @@ Proof.
   - (* PFin *)
     constructor; unfold mk; cbn.
     + intros t' th' E X. split_thread t; [discriminate|]. exact (ci_sec s I _ _ E X).
-    + intros t' th' E W P. discriminate.
+    + intros t' th' E W P. destruct (forced && skip t) eqn:Esk; [|discriminate].
+      apply andb_true_iff in Esk. destruct Esk as [-> _].
+      split_thread t; [nowin W|]. exact (ci_flag s I _ _ E W P).
     + intros t1 t2 a b E1 E2 W1 W2.
       destruct (Nat.eq_dec t t1) as [<-|N1]; destruct (Nat.eq_dec t t2) as [<-|N2]; [reflexivity | | |].
       * erewrite nth_set_cthr_same in E1 by eassumption. injection E1 as <-.
@@ -210,16 +212,16 @@ Qed.
 
 (* any number of threads calling close() on an open channel, EVERY schedule: at most one
    Channel.Close is sent *)
-Theorem close_at_most_once n sched : cl_sent (close_run true n sched) <= 1.
+Theorem close_at_most_once skip n sched : cl_sent (close_run true skip n sched) <= 1.
 Proof.
-  assert (G : forall sched s, ClInv s -> ClInv (fold_left (close_step true) sched s)).
+  assert (G : forall sched s, ClInv s -> ClInv (fold_left (close_step true skip) sched s)).
   { induction sched0 as [|t r IH]; intros s I; cbn; [exact I|]. apply IH. now apply close_step_inv. }
   destruct (ci_sent _ (G sched _ (close_init_inv n))) as [Z|[Z _]]; unfold close_run; lia.
 Qed.
 
 (* without the lock around test and set two closers can both send *)
-Theorem unlocked_close_refuted : exists sched, cl_sent (close_run false 2 sched) = 2.
-Proof. exists [0;0;1;1;0;1;0;1;0;1]%nat. vm_compute. reflexivity. Qed.
+Theorem unlocked_close_refuted : forall skip, exists sched, cl_sent (close_run false skip 2 sched) = 2.
+Proof. intros skip. exists [0;0;1;1;0;1;0;1;0;1]%nat. vm_compute. reflexivity. Qed.
 
 (* ---------------- B: never a code-less 'channel closed' for a broker close ---------------- *)
 Lemma nth_set_q_same l i x y : nth_error l i = Some y -> nth_error (set_q l i x) i = Some x.
